@@ -20,3 +20,70 @@ fn c20_dist_in_2r_nonnegative() {
     core::mem::forget(l);
     core::mem::forget(r);
 }
+
+static mut RAD_L: f32 = 0.0;
+static mut RAD_R: f32 = 0.0;
+static mut L_KEY: u32 = 0;
+/// Recording stub for get_radius: the box whose xc carries the "left" key gets RAD_L, the other RAD_R.
+fn stub_radius(b: &Universal2DBox) -> f32 {
+    unsafe { if b.xc.to_bits() == L_KEY { RAD_L } else { RAD_R } }
+}
+
+fn two_boxes() -> (Universal2DBox, Universal2DBox) {
+    let l = Universal2DBox::new(any_finite(), any_finite(), None, 1.0, 1.0);
+    let r = Universal2DBox::new(any_finite(), any_finite(), None, 1.0, 1.0);
+    kani::assume(l.xc.abs() <= 1.0e6 && l.yc.abs() <= 1.0e6 && r.xc.abs() <= 1.0e6 && r.yc.abs() <= 1.0e6);
+    kani::assume(l.xc.to_bits() != r.xc.to_bits());
+    unsafe { L_KEY = l.xc.to_bits(); }
+    (l, r)
+}
+
+//@H props=C20 kind=proof tier=quick stubs=yes fn=Universal2DBox::dist_in_2r timeout=600
+//@H clause: the centre distance is measured in units of the sum of BOTH bounding radii: if either box's radius is unbounded (+inf) the normalised distance is 0, whichever side it is on (get_radius by recording stub)
+#[kani::proof]
+#[kani::stub(Universal2DBox::get_radius, stub_radius)]
+#[kani::unwind(4)]
+fn c20_dist_in_2r_uses_both_radii() {
+    let (l, r) = two_boxes();
+    let finite_radius: f32 = kani::any();
+    kani::assume(finite_radius > 0.0 && finite_radius <= 1.0e6);
+    let left_unbounded: bool = kani::any();
+    unsafe {
+        RAD_L = if left_unbounded { f32::INFINITY } else { finite_radius };
+        RAD_R = if left_unbounded { finite_radius } else { f32::INFINITY };
+    }
+    let d = Universal2DBox::dist_in_2r(&l, &r);
+    kani::cover!(left_unbounded, "reach/c20_dist_in_2r_uses_both_radii left");
+    kani::cover!(!left_unbounded, "reach/c20_dist_in_2r_uses_both_radii right");
+    assert!(d == 0.0, "C20/dist_in_2r.unit_is_sum_of_both_radii: an unbounded radius on either side makes the normalised distance 0");
+    core::mem::forget(l);
+    core::mem::forget(r);
+}
+
+//@H props=C08,C02 kind=proof tier=quick stubs=yes fn=Universal2DBox::too_far timeout=600
+//@H clause: the pre-filter compares the centre distance with the sum of BOTH bounding radii: with an unbounded radius on either side no pair is 'too far'; with both radii 0 every pair of distinct centres is
+#[kani::proof]
+#[kani::stub(Universal2DBox::get_radius, stub_radius)]
+#[kani::unwind(4)]
+fn c08_too_far_uses_both_radii() {
+    let (l, r) = two_boxes();
+    let finite_radius: f32 = kani::any();
+    kani::assume(finite_radius > 0.0 && finite_radius <= 1.0e6);
+    let case: u8 = kani::any();
+    kani::assume(case < 3);
+    unsafe {
+        RAD_L = if case == 0 { f32::INFINITY } else if case == 1 { finite_radius } else { 0.0 };
+        RAD_R = if case == 0 { finite_radius } else if case == 1 { f32::INFINITY } else { 0.0 };
+    }
+    let far = Universal2DBox::too_far(&l, &r);
+    kani::cover!(case == 2 && far, "reach/c08_too_far_uses_both_radii far");
+    kani::cover!(case == 1 && !far, "reach/c08_too_far_uses_both_radii near");
+    if case < 2 {
+        assert!(!far, "C08,C02/too_far.reach_is_sum_of_both_radii: an unbounded radius on either side means within reach");
+    } else {
+        let dx = l.xc - r.xc;
+        assert!(far || !(dx * dx > 0.0), "C08,C02/too_far.zero_radii_distinct_centres_far: with zero reach, distinct centres are too far");
+    }
+    core::mem::forget(l);
+    core::mem::forget(r);
+}
